@@ -514,3 +514,32 @@ func guard(f func()) (p string) {
 	f()
 	return ""
 }
+
+// ---- known-finding exclusions ------------------------------------------------------------
+//
+// An exclusion removes a class of inputs from the generated domain *by construction*: the
+// generator asks, on a copy of the reference state alone, whether its next step would enter the
+// class and draws something else if so. The adapter is never consulted.
+
+const (
+	// an account is deleted at Finalise (self-destructed, or touched and empty) while the balance it had at the start of the transaction is not zero
+	exDelBal = "EVM:delete-with-stored-balance"
+
+	// starting accounts that exist but are empty (an EVM account record with nonce 0, no code, no balance)
+	exHollow = "EVM:hollow-account"
+)
+
+type exclusions struct {
+	active map[string]bool
+	count  func(tag string) // counts an excluded draw
+}
+
+func (e *exclusions) any() bool { return e != nil && len(e.active) > 0 }
+func (e *exclusions) on(tag string) bool {
+	return e != nil && e.active[tag]
+}
+func (e *exclusions) hit(tag string) {
+	if e != nil && e.count != nil {
+		e.count(tag)
+	}
+}
